@@ -3830,11 +3830,7 @@ xpath_ceiling(struct lyxp_set **args, uint32_t UNUSED(arg_count), struct lyxp_se
 
     rc = lyxp_set_cast(args[0], LYXP_SET_NUMBER);
     LY_CHECK_RET(rc);
-    if ((long long)args[0]->val.num != args[0]->val.num) {
-        set_fill_number(set, ((long long)args[0]->val.num) + 1);
-    } else {
-        set_fill_number(set, args[0]->val.num);
-    }
+    set_fill_number(set, ceill(args[0]->val.num));
 
     return LY_SUCCESS;
 }
@@ -4398,9 +4394,7 @@ xpath_floor(struct lyxp_set **args, uint32_t UNUSED(arg_count), struct lyxp_set 
 
     rc = lyxp_set_cast(args[0], LYXP_SET_NUMBER);
     LY_CHECK_RET(rc);
-    if (isfinite(args[0]->val.num)) {
-        set_fill_number(set, (long long)args[0]->val.num);
-    }
+    set_fill_number(set, floorl(args[0]->val.num));
 
     return LY_SUCCESS;
 }
@@ -5062,7 +5056,7 @@ xpath_round(struct lyxp_set **args, uint32_t UNUSED(arg_count), struct lyxp_set 
     LY_CHECK_RET(rc);
 
     /* cover only the cases where floor can't be used */
-    if ((args[0]->val.num == -0.0f) || ((args[0]->val.num < 0) && (args[0]->val.num >= -0.5))) {
+    if (((args[0]->val.num == 0) && signbit(args[0]->val.num)) || ((args[0]->val.num < 0) && (args[0]->val.num >= -0.5))) {
         set_fill_number(set, -0.0f);
     } else {
         args[0]->val.num += 0.5;
